@@ -368,12 +368,12 @@ def run2(ctx, n, have_model, gen="core2"):
             indom = bits & need == need
             if gen == "coret":
                 inT = not r.startswith("X")
-                inD = r.startswith("D")      # domain of the text-level theorem C02_text_roundtrip_holographic_target_chains (extracted predicate)
+                inD = r.startswith("D")      # domain of the text-level theorem C02_text_roundtrip_holographic_element_chains (extracted predicate in_coreth4_domain = coreth5_doc && lex_safeth5_doc)
                 r = r.lstrip("DX")
-                ctx.hist("theorem_domain_coreth4", "coreth4+lex_safeth4" if inD else "coret only" if inT else "outside coret")
+                ctx.hist("theorem_domain_coreth5", "coreth5+lex_safeth5" if inD else "coret only" if inT else "outside coret")
                 if inD and r in ("2", "3"):
                     ctx.correspondence_failure({"doc": d, "text": t, "shape_check": r},
-                                               "document in the domain of lex_emit_coreth4 but the extracted lexer model does not produce "
+                                               "document in the domain of lex_emit_coreth5 but the extracted lexer model does not produce "
                                                "the shape: theorem and extraction disagree")
                 ctx.hist("coret_shape_check", ("coret:" if inT else "outside coret:") + {"0": "site outside the proved class", "1": "shape-ok", "2": "mismatch", "3": "LEXERR"}.get(r, r))
                 continue
